@@ -94,7 +94,7 @@ def gen_case(r, nblocks=None):
             else:
                 b.sev = 1
             r.shuffle(attrs)
-            nl = r.choice([0, 1, 2, 4])
+            nl = r.choice([0, 1, 2, 4]) if r.random() > 0.03 else 2500      # now and then ~50 KB of content in the request
             lines = [" ".join(r.choice(CONTENT_PIECES) for _ in range(r.randint(1, 3))) for _ in range(nl)]
             if r.random() < 0.3:
                 lines.insert(0, "  ")
